@@ -215,6 +215,46 @@ def t_writers(E):
     E.prove(len(found & allowed) >= 8, 'the writers under contract exist')
 
 
+def t_set_pointer(E, old_mode, new_mode):
+    """Interpreter.set_pointer: KEY/event handlers take input only while a program runs - entering run mode
+    installs the enabled handlers in the input chain, returning to direct mode removes them all (a trapped
+    key typed at the prompt reaches the keyboard buffer instead of being swallowed)."""
+    from pcbasic.basic import interpreter as interp_mod
+    from .C16 import Spy
+    log = []
+    it = object.__new__(interp_mod.Interpreter)
+    it.run_mode = old_mode
+    it._files = Spy('files', log)
+    it._sound = Spy('sound', log)
+    it._queues = Spy('queues', log)
+    enabled = ['handler-1', 'handler-2']
+    class _Ev(object):
+        pass
+    it._basic_events = _Ev()
+    it._basic_events.enabled = enabled
+    class _Code(object):
+        _pyvc_trusted = True
+        def __init__(self):
+            self.seeks = []
+        def seek(self, *a):
+            self.seeks.append(a)
+    it._program_code, it.direct_line = _Code(), _Code()
+    pos = E.int('pos', 0, 60000)
+    r = E.call(it.set_pointer, new_mode, pos)
+    E.prove(not r.raised, 'never raises')
+    E.prove(it.run_mode == new_mode, 'the mode is switched')
+    sets = [a for (n, a) in log if n == 'queues.set_basic_event_handlers']
+    E.prove(len(sets) >= 1, 'the input chain is updated')
+    if sets:
+        last = sets[-1][0]
+        if new_mode:
+            E.prove(last is enabled, 'run mode: the enabled event handlers take input')
+        else:
+            E.prove(list(last) == [], 'direct mode: no event handler takes input')
+    cs = it._program_code if new_mode else it.direct_line
+    E.prove(cs.seeks == [(pos,)], 'the pointer is set in the code of the new mode')
+
+
 TASKS = [
     Task('Interpreter.handle_basic_events', t_dispatch, covers=('dispatched', 'not dispatched'),
          cases=[{'run_mode': m, 'suspended': s} for m in (True, False) for s in (True, False)]),
@@ -224,6 +264,8 @@ TASKS = [
     Task('writers of event state (structure)', t_writers),
     Task('check_input (occurrence recorded)', t_check_input,
          cases=[{'kind': k} for k in ('key', 'key-defined', 'pen', 'strig', 'timer')]),
+    Task('Interpreter.set_pointer (event handlers only in run mode)', t_set_pointer,
+         cases=[{'old_mode': a, 'new_mode': b} for a in (False, True) for b in (False, True)]),
 ]
 
 ASSUMPTIONS = [
